@@ -58,6 +58,7 @@ fn diag_present(src: &str, want_index: bool) -> Result<bool, String> {
 /// before the offset + 1 and column = bytes since the start of that line + 1.
 fn render_mode(thorough: bool) {
     use text_size::{TextRange, TextSize};
+    std::panic::set_hook(Box::new(|_| {}));
     let n = if thorough { 7 } else { 5 };
     let alphabet = ["a", "\n", "\t", " "];
     let interner = Interner::default();
@@ -90,6 +91,28 @@ fn render_mode(thorough: bool) {
                 println!("MISMATCH text {:?} offset {}: the diagnostic header is {:?}, the position is line {} column {}", text, off, header.trim(), line, col);
                 println!("SUMMARY mode=render max_len={} texts={} runs={} mismatches=1", n, texts.len(), runs);
                 std::process::exit(1);
+            }
+            // the same position reported with an EMPTY range (what `MissingArg` does): the header
+            // still names the position where the range starts.  Offsets where the byte before is a
+            // line break are left out (the snippet printer of the pinned tree panics there), and so
+            // is offset 0 (the inclusive end underflows).
+            if off > 0 && text.as_bytes()[off - 1] != b'\n' {
+                let err = parser::SyntaxError {
+                    expected_syntax: parser::ExpectedSyntax::Named("thing"),
+                    kind: parser::SyntaxErrorKind::UnexpectedToken { found: syntax::TokenKind::Ident, range: TextRange::empty(TextSize::from(off as u32)) },
+                };
+                let shown = std::panic::catch_unwind(std::panic::AssertUnwindSafe(|| {
+                    diagnostics::Diagnostic::from_syntax(err).display("f.capy", text, Path::new(""), &interner, &index, false)
+                }));
+                if let Ok(lines) = shown {
+                    runs += 1;
+                    let header = lines.iter().find(|l| l.contains("--> at ")).cloned().unwrap_or_default();
+                    if !header.trim_end().ends_with(&want) {
+                        println!("MISMATCH text {:?} empty range at offset {}: the diagnostic header is {:?}, the position is line {} column {}", text, off, header.trim(), line, col);
+                        println!("SUMMARY mode=render max_len={} texts={} runs={} mismatches=1", n, texts.len(), runs);
+                        std::process::exit(1);
+                    }
+                }
             }
         }
     }
